@@ -9,6 +9,7 @@ import (
 
 	"github.com/rulego/streamsql"
 	"github.com/rulego/streamsql/stream"
+	"github.com/rulego/streamsql/types"
 )
 
 // SeqScenario is a sequential (single producer, lock-step) scenario for any query kind.
@@ -23,7 +24,21 @@ type SeqScenario struct {
 	Stop   bool             `json:"stop"`    // call Stop before the quiesce event (CEP flush)
 	Sort   string           `json:"sort"`    // sort delivered rows of a batch by this column (when the statement leaves order open)
 	Tables []SeqTable       `json:"tables"`
-	Ops    []SeqOp          `json:"ops"` // optional explicit operation list (JOIN scenarios); when empty: emit every row
+	Burst  bool             `json:"burst"` // emit every row without waiting in between (ordering / conservation); quiesce once at the end
+	Perf   *SeqPerf         `json:"perf"`  // custom performance configuration
+	Ops    []SeqOp          `json:"ops"`   // optional explicit operation list (JOIN scenarios); when empty: emit every row
+}
+
+// SeqPerf selects buffer sizes and the overflow strategy.
+type SeqPerf struct {
+	Strategy string  `json:"strategy"`
+	Data     int     `json:"data"`
+	Max      int     `json:"max"`
+	MinInc   int     `json:"mininc"`
+	Growth   float64 `json:"growth"`
+	Thresh   float64 `json:"thresh"`
+	BlockMs  int     `json:"blockms"`
+	SlowSink int     `json:"slowsink"` // microseconds the sync sink sleeps per batch (consumer slower than producer)
 }
 
 // SeqTable registers an in-memory table before rows flow.
@@ -56,6 +71,29 @@ func RunSeq(sc SeqScenario) (evs []Ev, inconclusive string) {
 	var opts []streamsql.Option
 	if sc.MaxPar > 0 {
 		opts = append(opts, streamsql.WithAnalyticMaxPartitions(sc.MaxPar))
+	}
+	if sc.Perf != nil {
+		pc := types.DefaultPerformanceConfig()
+		if sc.Perf.Strategy != "" {
+			pc.OverflowConfig.Strategy = sc.Perf.Strategy
+		}
+		if sc.Perf.Data > 0 {
+			pc.BufferConfig.DataChannelSize = sc.Perf.Data
+		}
+		if sc.Perf.Max > 0 {
+			pc.BufferConfig.MaxBufferSize = sc.Perf.Max
+		}
+		if sc.Perf.MinInc > 0 {
+			pc.OverflowConfig.ExpansionConfig.MinIncrement = sc.Perf.MinInc
+		}
+		if sc.Perf.Growth > 0 {
+			pc.OverflowConfig.ExpansionConfig.GrowthFactor = sc.Perf.Growth
+		}
+		if sc.Perf.Thresh > 0 {
+			pc.OverflowConfig.ExpansionConfig.TriggerThreshold = sc.Perf.Thresh
+		}
+		pc.OverflowConfig.BlockTimeout = time.Duration(sc.Perf.BlockMs) * time.Millisecond
+		opts = append(opts, streamsql.WithCustomPerformance(pc))
 	}
 	s := streamsql.New(opts...)
 	reset := Ev{"tr": sc.Tr, "e": "reset"}
@@ -113,6 +151,9 @@ func RunSeq(sc SeqScenario) (evs []Ev, inconclusive string) {
 		return rows
 	}
 	s.AddSyncSink(func(rs []map[string]any) {
+		if sc.Perf != nil && sc.Perf.SlowSink > 0 {
+			time.Sleep(time.Duration(sc.Perf.SlowSink) * time.Microsecond)
+		}
 		rows := project(rs)
 		in.mu.Lock()
 		for _, r := range rs {
@@ -196,7 +237,7 @@ func RunSeq(sc SeqScenario) (evs []Ev, inconclusive string) {
 			} else {
 				nEmit++
 				s.Emit(row)
-				if !in.WaitFor(T, quiet) {
+				if !sc.Burst && !in.WaitFor(T, quiet) {
 					return in.Events(), fmt.Sprintf("row %d not fully processed", i+1)
 				}
 			}
@@ -225,6 +266,20 @@ func RunSeq(sc SeqScenario) (evs []Ev, inconclusive string) {
 	}
 	if !in.WaitFor(T, quiet) {
 		return in.Events(), "no quiescence"
+	}
+	if sc.Chan { // let the channel reader catch up: one batch per sink delivery (unless the engine dropped some: bounded wait)
+		in.WaitFor(500*time.Millisecond, func() bool {
+			no, nc := 0, 0
+			for _, e := range in.events {
+				switch e["e"] {
+				case "out":
+					no++
+				case "chan":
+					nc++
+				}
+			}
+			return nc >= no
+		})
 	}
 	if sc.Stop {
 		in.Log(Ev{"tr": sc.Tr, "e": "stop"})
